@@ -11,6 +11,7 @@ import (
 	"os/exec"
 	"path/filepath"
 	"sync"
+	"time"
 )
 
 type Node struct {
@@ -69,6 +70,14 @@ func (n *Node) Close() {
 // Call sends one request and decodes the response into resp. A worker that dies is an
 // infrastructure error (exit 2), never a verdict.
 func (n *Node) Call(req interface{}, resp interface{}) {
+	if !n.CallT(req, resp, 10*time.Minute) {
+		fatalf("node worker did not answer within 10 minutes")
+	}
+}
+
+// CallT is Call with a watchdog: if the worker does not answer in time it is killed and
+// restarted and false is returned (the caller decides what a hang means).
+func (n *Node) CallT(req interface{}, resp interface{}, limit time.Duration) bool {
 	if n.calls > 4000 {
 		n.Close()
 		n.start()
@@ -82,12 +91,31 @@ func (n *Node) Call(req interface{}, resp interface{}) {
 	if _, err := n.in.Write(data); err != nil {
 		fatalf("node write: %v", err)
 	}
-	line, err := n.out.ReadBytes('\n')
-	if err != nil {
-		fatalf("node read: %v (request %s)", err, trunc(string(data), 2000))
+	type rd struct {
+		line []byte
+		err  error
 	}
-	if err := json.Unmarshal(line, resp); err != nil {
-		fatalf("node response: %v: %s", err, trunc(string(line), 500))
+	ch := make(chan rd, 1)
+	out := n.out
+	go func() {
+		line, err := out.ReadBytes('\n')
+		ch <- rd{line, err}
+	}()
+	select {
+	case r := <-ch:
+		if r.err != nil {
+			fatalf("node read: %v (request %s)", r.err, trunc(string(data), 2000))
+		}
+		if err := json.Unmarshal(r.line, resp); err != nil {
+			fatalf("node response: %v: %s", err, trunc(string(r.line), 500))
+		}
+		return true
+	case <-time.After(limit):
+		n.cmd.Process.Kill()
+		n.cmd.Wait()
+		n.cmd = nil
+		n.start()
+		return false
 	}
 }
 
